@@ -695,6 +695,10 @@ func display(computer *ComputedStyle, _ pr.KnownProp, _value pr.CssProperty) pr.
 		} else if d == "inline" {
 			if value.Has("list-item") {
 				return pr.Display{"block", "flow", "list-item"}
+			} else if inner := value[1]; inner != "" {
+				// blockification keeps the inner display type (CSS Display 3, 2.7):
+				// inline-block -> flow-root, inline-table -> table, inline-flex -> flex, inline-grid -> grid
+				return pr.Display{"block", inner}
 			} else {
 				return pr.Display{"block", "flow"}
 			}
